@@ -37,6 +37,8 @@ var TimeTexts = []string{
 	"2020-01-02 03:04:05", "2020-01-02", "1999-12-31 23:59:59", "2000-02-29 12:00:00", "2038-01-19 03:14:08",
 	"2021-06-15T10:20:30Z", "2021-06-15T10:20:30+08:00", "2021-06-15T10:20:30-05:00", "@0", "@1", "@86400", "@1600000000", "@2147483648",
 	"1971-01-01 00:00:00", "2099-12-31 23:59:59", "2020-01-02 03:04",
+	// fractional seconds (dropped: a time value counts whole seconds), alone and followed by a zone designator
+	"2021-06-15T10:20:30.123+08:00", "2021-06-15T10:20:30.5-05:00", "2021-06-15T02:20:30.999Z", "2021-06-15 10:20:30.25", "2021-06-15T10:20:30.000001",
 }
 
 // Zones for host-data times.
